@@ -228,6 +228,7 @@ def run(ctx):
     ctx.assume('the smallest knot is requested only in the table\'s own unit (a unit round trip can land 1 ulp below it and be legitimately refused)',
                'interpolate_variable clamps to 0.999*a_max by design: anything between the interpolants at 0.999*a_max and a_max is accepted',
                'rtol 1e-11 (1e-9 for the composite SED)')
+    ctx.require_regimes('on-knot:in-another-unit')
     ctx.require_events('convolved:result-at-tabulated-radii-modified', 'sed:same-request-array-reused-across-tables', 'convolved:same-request-quantity-reused-across-tables', 'ConvolvedFluxes.interpolate:post', 'SED.interpolate:post', 'SED.interpolate_variable:post', 'variable:node-checked',
                        'refused:convolved', 'refused:sed', 'refused:variable', 'convolved:same-table-again', 'convolved:table-changed-between-calls', 'convolved:table-without-errors', 'sed:apertures-replaced-between-calls', 'sed:fluxes-replaced-between-calls', 'convolved:apertures-replaced-between-calls', 'convolved:request-dtypes', 'convolved:flux-scaled-with-augmented-assignment')
     ctx.require_regimes('sed:request-as-integers', 'sed:request-as-float32', 'single-aperture', 'convolved:no-apertures', 'convolved:flux-unit-not-mJy', 'convolved:error-unit-differs', 'sed:desc-wav', 'sed:flux-unit-not-mJy', 'unit:pc', 'unit:cm', 'sed-apertures:cm', 'above-table', 'on-knot')
@@ -273,6 +274,14 @@ def run(ctx):
             rq = np.array(rq) * u.Unit(tunit)
             if np.any(np.isin(req, tab_au)):
                 ctx.regime('on-knot')
+        elif it % 2 == 0 and np.any(np.isin(req, tab_au)):
+            # knots requested in another length unit, as a user computes them: table.apertures.to(unit) - "on the table" in that unit
+            rq = []
+            for a in req:
+                k = np.where(tab_au == a)[0]
+                rq.append(float(tq[k[0]].to(u.Unit(runit)).value) if k.size else float((a * u.au).to(u.Unit(runit)).value))
+            rq = np.array(rq) * u.Unit(runit)
+            ctx.regime('on-knot:in-another-unit')
         else:
             req = np.array([a * (1 + 1e-9) if a in tab_au else a for a in req])
             rq = (req * u.au).to(u.Unit(runit))
